@@ -85,6 +85,8 @@ def gen_latest_cfg(seed: int) -> dict:
     faults = {}
     if rng.random() < 0.4:
         faults['stall'] = rng.choice([0.001, 0.01])
+    if rng.random() < 0.3:
+        faults['registry-io-error'] = rng.choice([0.02, 0.1])
     return {'seed': seed, 'mode': 'latest', 'nreg': nreg, 'initial': initial, 'selectors': selectors,
             'events': events, 'clients': clients, 'horizon': horizon,
             'kernel': {'policy': rng.choice(['random', 'random', 'pct']), 'preempt_p': rng.choice([0.05, 0.2, 0.5]),
@@ -106,6 +108,27 @@ def _commit(directory: asset.Directory, project: str, release: str, payload: byt
     accessor = instance.state([0], instance.tag.training.trigger())
     accessor.commit([accessor.dump(payload)])
     return int(accessor._generation.key)  # pylint: disable=protected-access
+
+
+class FlakyRegistry(posix.Registry):
+    """The registry as the serving side sees it: listings may hit a transient storage error (injected only into
+    the refresher task, so that a client's own selection never fails for a reason the property does not allow)."""
+
+    refresher_errors = 0
+
+    def _maybe_fail(self, what: str):
+        k = kmod.current()
+        if k is not None and '_refresh' in k.me().name and k.fault('registry-io-error'):
+            FlakyRegistry.refresher_errors += 1
+            raise OSError(f'injected transient storage error while listing {what}')
+
+    def releases(self, project):
+        self._maybe_fail('releases')
+        return super().releases(project)
+
+    def generations(self, project, release):
+        self._maybe_fail('generations')
+        return super().generations(project, release)
 
 
 def simulate_latest(cfg: dict, root: str, schedule: typing.Optional[list] = None) -> dict:
@@ -130,7 +153,8 @@ def simulate_latest(cfg: dict, root: str, schedule: typing.Optional[list] = None
     selectors = [application.Latest(project=s['project'], release=s['release'], refresh=s['refresh'])
                  for s in cfg['selectors']]
     # the serving side sees the registries through its own directory objects (one per registry, like a gateway)
-    served = [asset.Directory(reg) for reg in registries]
+    FlakyRegistry.refresher_errors = 0
+    served = [asset.Directory(FlakyRegistry(root / f'reg{i}', staging=root / f'stage{i}')) for i in range(cfg['nreg'])]
     history: list[dict] = []
     trainer_task = {}
 
@@ -195,8 +219,10 @@ def simulate_latest(cfg: dict, root: str, schedule: typing.Optional[list] = None
                 rec['error'] = f'{type(err).__name__}: {err}'[:160]
             rec['t1'] = kernel.now
             rec['s1'] = kernel.step
-            # slack: every stall injected so far (a stalled lock holder delays the refresher just as well)
-            rec['stall'] = sum(kernel.stalled.values())
+            # slack: every stall injected so far (a stalled lock holder delays the refresher just as well) plus one
+            # refresh interval per refresh cycle that was lost to an injected storage error
+            rec['stall'] = sum(kernel.stalled.values()) + FlakyRegistry.refresher_errors * max(
+                s['refresh'] for s in cfg['selectors'])
             history.append(rec)
             kernel.note('selected', json.dumps(rec['result']))
 
